@@ -1,6 +1,7 @@
 import MosnVerif.Drive.Util
 import MosnVerif.Model.FrameChk
 import MosnVerif.Model.FrameSpec
+import MosnVerif.Model.FrameH2
 /-! driver of C08 (malformed input contained): see `run` for the case kinds. Core Lean only. -/
 namespace MosnVerif.Drive.C08
 open MosnVerif.Drive MosnVerif.Model.Framing MosnVerif.Model.FrameBytes MosnVerif.Model.FrameChk MosnVerif.Model.KVBlock
@@ -48,10 +49,31 @@ def kv (bytes : String) (impl : List String) : String :=
     s!"{if m == o then "A" else "D"} {if o != "panic" && o != "hang" then "S" else "V"} {m}"
   | _, _ => "E E bad-case"
 
+def showStep {F : Type} : Step F → String
+  | .needMore => "needmore:0"
+  | .frame _ n => s!"frame:{n}"
+  | .error => "error:0"
+
+/-- `h2dec <bytes> => <class>:<drained>`: one real server-side `ReadFrame` (after the preface) on exactly these bytes.
+Payload parsers and HPACK may accept or refuse (oracles): the implementation must produce one of the model's outcomes. -/
+def h2dec (bytes : String) (impl : List String) : String :=
+  match unhex bytes, impl with
+  | some b, [o] =>
+    let m (p g : Bool) := showStep (MosnVerif.Model.FrameH2.h2Step MosnVerif.Gen.FrameConsts.http2_defaultMaxReadFrameSize
+      (fun _ => p) (fun _ => g) true b)
+    let allowed := dedup [m true true, m true false, m false true]
+    let agree := allowed.contains o
+    let spec := match parseOutcome o with
+      | some oc => specContained b.length oc
+      | none => false
+    s!"{if agree then "A" else "D"} {if spec then "S" else "V"} {joinWith "|" allowed}"
+  | _, _ => "E E bad-case"
+
 def run (caseToks impl : List String) : String :=
   match caseToks with
   | ["dec", proto, bytes] => dec proto bytes impl
   | ["kv", bytes] => kv bytes impl
+  | ["h2dec", bytes] => h2dec bytes impl
   | _ => "E E unknown-kind"
 
 end MosnVerif.Drive.C08
